@@ -178,3 +178,188 @@ func c07r7(r *R) {
 	}
 	r.check(n == 1, "loadCACertificate#once", lc.Pos(), "loaded in exactly one place", fmt.Sprintf("the CA key pair is loaded in %d places (%s): a generated CA differs between loads", n, strings.Join(sites, ", ")))
 }
+
+func init() {
+	register("C13", "R8", 2, "a dialled upstream connection of an upgraded exchange is closed and reported closed: the response body closed on exit is the one the round trip returned (the C03.R6 decision, claimed here for the dialled-connection accounting)", c03r6)
+	register("C08", "R9", 2, "the PROXY-protocol wrapper is part of every listener that asks for it: on every path of Listener.Listen on which ProxyProtocolConfig is set, the listener that is kept wraps a proxyproto.Listener over the raw socket, whatever other wrappers (rate limits) are configured", listenerStack)
+	register("C20", "R5", 2, "the rate-limit wrapper is part of every listener that asks for it: on every path of Listener.Listen on which a limit is positive, the listener that is kept is (built over) ratelimit.NewListener, whatever other wrappers are configured (same decision as C08.R9)", listenerStack)
+	register("C10", "R13", 10, "frames keep flowing after connection-level frames: processFrame reports an error only when something failed - on a path where every write, decode and processor call succeeded it returns that call's own (nil) result, never a sentinel that makes the relay stop reading", c10r13)
+	register("C12", "R12", 1, "the accept loop survives transient accept failures (EMFILE, ECONNABORTED): the back-off-and-retry branch of Serve is taken for every net.Error that reports Temporary()", c12r12)
+	register("C14", "R7", 2, "the Ex helpers answer for both address families: isResolvableEx and isInNetEx resolve through dnsResolveEx (network \"ip\"), never through the IPv4-only dnsResolve", c14r7)
+	register("C14", "R8", 6, "evaluations are independent of each other: helper functions keep no state in the resolver - outside its constructor nothing stores into, or updates a map held by, a ProxyResolver field (a pooled resolver is reused for unrelated requests)", c14r8)
+}
+
+func listenerStack(r *R) {
+	fn := r.method(".", "Listener", "Listen")
+	ps, complete := enumPaths(fn, 4096, 1)
+	if !complete {
+		r.undecided("Listener.Listen#paths", fn.Pos(), "too many paths")
+		return
+	}
+	var why []string
+	n := 0
+	for _, p := range ps {
+		if len(p.Ret) != 1 || p.Ret[0] != "nil" {
+			continue
+		}
+		kept, ok := p.Mem["$0.listener"]
+		if !ok {
+			continue
+		}
+		n++
+		// the proxyproto composite built on this path
+		pp := ""
+		for k := range p.Mem {
+			if strings.HasSuffix(k, ".ReadHeaderTimeout") && strings.HasPrefix(k, "local:") {
+				pp = strings.TrimSuffix(k, ".ReadHeaderTimeout")
+			}
+		}
+		// a wrapper may be left out only on a path that knows it is not asked for
+		if !p.holds("!($0.ProxyProtocolConfig != nil)") && !p.holds("!($0.ListenerConfig.ProxyProtocolConfig != nil)") {
+			if pp == "" || !strings.Contains(kept, pp) {
+				why = append(why, "PROXY protocol may be configured but the kept listener is "+shorten(kept, 80)+" on ["+shorten(strings.Join(p.Conds, " ∧ "), 160)+"]")
+			}
+		}
+		noRead := p.holds("!($0.ListenerConfig.ReadLimit > 0)") || p.holds("!($0.ReadLimit > 0)")
+		noWrite := p.holds("!($0.ListenerConfig.WriteLimit > 0)") || p.holds("!($0.WriteLimit > 0)")
+		if !(noRead && noWrite) && !strings.Contains(kept, "ratelimit.NewListener(") {
+			why = append(why, "a limit may be configured but the kept listener is "+shorten(kept, 80)+" on ["+shorten(strings.Join(p.Conds, " ∧ "), 160)+"]")
+		}
+	}
+	r.check(n > 0 && len(why) == 0, "Listener.Listen#wrappers", fn.Pos(), "every configured wrapper is in the stack that is kept", strings.Join(dedupStrings(why), "; "))
+	// and the PROXY wrapper sits directly on the socket (it must see the first bytes)
+	okInner := false
+	for _, p := range ps {
+		for k, v := range p.Mem {
+			if strings.HasPrefix(k, "local:") && strings.HasSuffix(k, ".Listener") && strings.Contains(v, "listen($0)#0") {
+				if _, has := p.Mem[strings.TrimSuffix(k, ".Listener")+".ReadHeaderTimeout"]; has {
+					okInner = true
+				}
+			}
+		}
+	}
+	r.check(okInner, "Listener.Listen#proxyproto-innermost", fn.Pos(), "proxyproto.Listener wraps the raw socket", "the PROXY-protocol wrapper is not built directly over the listening socket")
+}
+
+func c10r13(r *R) {
+	pf := r.method(h2pkg, "relay", "processFrame")
+	ps, complete := enumPaths(pf, 8192, 1)
+	if !complete {
+		r.undecided("processFrame#paths", pf.Pos(), "too many paths")
+		return
+	}
+	classes := map[string]string{}
+	for _, p := range ps {
+		if len(p.Ret) != 1 {
+			continue
+		}
+		failed := p.hasCond(func(c string) bool { return !strings.HasPrefix(c, "!") && strings.HasSuffix(c, " != nil)") })
+		if failed {
+			continue
+		}
+		ret := p.Ret[0]
+		kind := "call result"
+		switch {
+		case ret == "nil":
+			kind = "nil"
+		case strings.HasPrefix(ret, "fmt.Errorf(") || strings.HasPrefix(ret, "errors.New("):
+			kind = "error value built on a path where nothing failed"
+			// legitimate: protocol errors (unexpected CONTINUATION etc.) are decided by tests on the frame, not by an err != nil
+			if p.hasCond(func(c string) bool { return strings.Contains(c, "continuationState") || strings.Contains(c, "(type)") }) {
+				kind = "protocol error"
+			}
+		case strings.HasPrefix(ret, "martian/h2.") || strings.HasPrefix(ret, "h2."):
+			kind = "sentinel " + ret
+		}
+		// group by the frame type the path handles
+		ft := "other"
+		for _, c := range p.Conds {
+			if isFrameTypeCase(c) {
+				ft = c[strings.LastIndex(c, ".")+1 : len(c)-3]
+			}
+		}
+		if ft == "other" && strings.HasPrefix(kind, "error value built") {
+			kind = "protocol error" // the default branch of the type switch: a frame type the relay does not know
+		}
+		key := ft + ":" + kind
+		if _, ok := classes[key]; !ok {
+			classes[key] = shorten(ret, 70)
+		}
+	}
+	var keys []string
+	for k := range classes {
+		keys = append(keys, k)
+	}
+	sortStrings(keys)
+	for _, k := range keys {
+		bad := strings.Contains(k, ":sentinel ") || strings.HasSuffix(k, ":error value built on a path where nothing failed")
+		r.check(!bad, "processFrame#success-return("+k+")", pf.Pos(), "returns "+classes[k], "on a path where nothing failed processFrame returns "+classes[k]+": the relay loop treats any error as the end of this direction, so every frame the endpoint sends afterwards is lost")
+	}
+}
+
+func c12r12(r *R) {
+	sv := r.method("internal/martian", "Proxy", "Serve")
+	n := 0
+	eachInstr(sv, func(ins ssa.Instruction) {
+		c, ok := ins.(*ssa.Call)
+		if !ok || calleeName(c.Common()) != "time.Sleep" {
+			return
+		}
+		n++
+		temp := guardedBy(c.Block(), func(g string) bool { return strings.HasPrefix(g, "invoke net.Error.Temporary(") })
+		narrowed := guardedBy(c.Block(), func(g string) bool {
+			return strings.HasPrefix(g, "invoke net.Error.Timeout(") || strings.Contains(g, "syscall.") || strings.Contains(g, "errors.Is(")
+		})
+		r.check(temp && !narrowed, "Serve#retry-on-temporary", c.Pos(), "back-off and retry for every temporary accept error", "the accept loop backs off and retries only under "+strings.Join(guardStrings(c.Block()), " ∧ ")+": a temporary error that is not covered (too many open files, connection aborted) ends Serve, the process stays up but accepts nothing")
+	})
+	if n == 0 {
+		r.bad("Serve#retry-on-temporary", sv.Pos(), "the accept loop has no back-off/retry branch: a transient accept error ends Serve")
+	}
+}
+
+func c14r7(r *R) {
+	ex := r.method("pac", "ProxyResolver", "dnsResolveEx")
+	v4 := r.method("pac", "ProxyResolver", "dnsResolve")
+	for _, name := range []string{"isResolvableEx", "isInNetEx"} {
+		fn := r.method("pac", "ProxyResolver", name)
+		usesEx := len(callsToFunc(fn, ex)) > 0
+		uses4 := len(callsToFunc(fn, v4)) > 0
+		// isInNetEx parses literals itself and may not resolve at all; it must just never use the IPv4-only lookup
+		good := !uses4 && (usesEx || name == "isInNetEx")
+		r.check(good, "pac."+name+"#lookup", fn.Pos(), "resolves through dnsResolveEx", name+" resolves through the IPv4-only dnsResolve: a host with only AAAA records is reported unresolvable / outside every network")
+	}
+}
+
+func c14r8(r *R) {
+	n := 0
+	for _, fn := range r.modFuncsAll() {
+		nm := fname(fn)
+		if !strings.HasPrefix(nm, "(*pac.ProxyResolver).") && !strings.HasPrefix(nm, "pac.") {
+			continue
+		}
+		ctor := strings.HasPrefix(nm, "pac.NewProxyResolver") || strings.HasPrefix(nm, "pac.With")
+		var bad []string
+		touched := false
+		eachInstr(fn, func(ins ssa.Instruction) {
+			switch x := ins.(type) {
+			case *ssa.Store:
+				if fa, ok := x.Addr.(*ssa.FieldAddr); ok && structName(fa.X.Type()) == "pac.ProxyResolver" {
+					touched = true
+					if !ctor {
+						bad = append(bad, "stores into ProxyResolver."+fieldName(fa.X.Type(), fa.Field)+" at "+r.rel(x.Pos()))
+					}
+				}
+			case *ssa.MapUpdate:
+				if d := describe(x.Map); strings.HasPrefix(d, "$0.") && strings.HasPrefix(nm, "(*pac.ProxyResolver).") && !strings.Contains(d, "(") {
+					touched = true
+					bad = append(bad, "updates the map "+d+" at "+r.rel(x.Pos()))
+				}
+			}
+		})
+		if !touched && !strings.HasPrefix(nm, "(*pac.ProxyResolver).") {
+			continue
+		}
+		n++
+		r.check(len(bad) == 0, nm+"#stateless", fn.Pos(), "keeps no state in the resolver", strings.Join(bad, "; ")+": what one evaluation leaves behind is seen by the next, unrelated one that gets this pooled resolver")
+	}
+}
